@@ -137,7 +137,38 @@ def _sign_uses(ctx, f, target):
                     if isinstance(par, ast.Attribute) or isinstance(par, ast.FormattedValue):
                         continue
                     bad.append((g, x))
+                    continue
+                # the other factor must be metric-valued: a fixed sentinel (inf, a default of dict.get) times the sign
+                # is +s under one mode and -s under the other, while negating the metrics leaves it alone
+                other = par.right if par.left is x else par.left
+                if _may_be_sentinel(g, other):
+                    bad.append((g, par))
     return n, bad
+
+
+def _is_numeric_sentinel(e):
+    if isinstance(e, ast.UnaryOp) and isinstance(e.op, (ast.USub, ast.UAdd)):
+        return _is_numeric_sentinel(e.operand)
+    if isinstance(e, ast.Constant) and isinstance(e.value, (int, float)) and not isinstance(e.value, bool) and e.value != 0:
+        return True
+    if isinstance(e, ast.Call) and fn_name(e) == "float" and e.args and isinstance(e.args[0], ast.Constant) and isinstance(e.args[0].value, str):
+        return True
+    return U(e) in ("np.inf", "numpy.inf", "math.inf", "np_inf", "inf", "np.nan", "float('inf')", "sys.float_info.max", "sys.maxsize")
+
+
+def _may_be_sentinel(g, e, depth=3):
+    """can e evaluate to a mode-independent non-zero constant (directly, or as the default of `.get(k, default)`, or through a
+    local all of whose ... one of whose definitions is such a value)?"""
+    from ..engine import local_defs
+    if _is_numeric_sentinel(e):
+        return True
+    if isinstance(e, ast.Call) and fn_name(e) == "get" and len(e.args) == 2 and _is_numeric_sentinel(e.args[1]):
+        return True
+    if isinstance(e, ast.IfExp):
+        return _may_be_sentinel(g, e.body, depth) or _may_be_sentinel(g, e.orelse, depth)
+    if isinstance(e, ast.Name) and depth > 0:
+        return any(not isinstance(d, tuple) and _may_be_sentinel(g, d, depth - 1) for d in local_defs(g, e.id))
+    return False
 
 
 EVEN_CALLS = ("isnan", "isinf", "isfinite", "bool", "len", "isinstance", "str", "hash")
@@ -211,7 +242,9 @@ def classify(ctx, f, node):
         k = parity.is_sign(top, FLAGS)
         return "SIGN", k is not None, f"{U(top)}" + (f" (= {k} for min)" if k is not None else " does not fold to k / -k")
     if isinstance(par, ast.If) and par.test is node:
+        from ..engine import inline_block
         amin, amax = (par.body, par.orelse) if m == "min" else (par.orelse, par.body)
+        amin, amax = inline_block(amin), inline_block(amax)
         if not par.orelse:
             # negate under one mode:  if mode == 'max': x *= -1
             b = par.body
@@ -308,7 +341,8 @@ def run(ctx, rep, tier="quick"):
             n, bad = _sign_uses(ctx, f, tgt)
             n_sign += 1
             rep.put(n > 0 and not bad, "S2", "parity", f"{construct}: every use of SIGN `{tgt}` multiplies a metric-valued expression", f, st,
-                    f"{n} use(s)", f"`{tgt}` is a mode sign but is used other than as a factor: " +
+                    f"{n} use(s)", f"`{tgt}` is a mode sign but is not used as a factor of a metric-valued expression (it is not a factor at all, or the other "
+                    f"factor can be a fixed sentinel such as inf / a dict.get default, which does not flip with the metrics): " +
                     ", ".join(f"{g.short}:{x.lineno}" for g, x in bad[:3]))
     # SIGN consumers whose comparison direction matters
     P = ctx.P
